@@ -753,6 +753,17 @@ public:
       sc.useReplay = true;
       for (auto& d : plan.geta("decisions")) sc.replay.push_back((uint32_t)d.n);
     }
+    // the livelock cap is a budget of scheduling steps: a child that writes 170 KiB read back two bytes at a time needs
+    // a few hundred thousand of them legitimately (thorough tier found this as a "livelock")
+    {
+      uint64_t bytes = 0;
+      for (auto& j : plan.geta("jobs"))
+        if (const Json* pr = j.find("proc"))
+          for (auto& op : pr->geta("script"))
+            if (op.gets("op") == "write") bytes += (uint64_t)op.getn("n");
+      uint64_t chunk = cfg ? (uint64_t)cfg->getn("read_chunk") : 0;
+      if (chunk > 0) sc.maxSteps += bytes / chunk * 12;
+    }
     sim::begin(sc);
     sim::set_role("main");
     uint64_t t0 = sim::now_ns();
